@@ -450,6 +450,10 @@ pub trait Vec1View<T>: TIter<T> {
         V2: Vec1View<T2>,
         F: FnMut(Self::SliceOutput<'_>, V2::SliceOutput<'_>) -> OT,
     {
+        assert!(
+            other.len() >= self.len(),
+            "the second series is shorter than the first"
+        );
         let iter = (1..self.len() + 1)
             .zip(std::iter::repeat_n(0, window - 1).chain(0..self.len()))
             .map(|(end, start)| unsafe {
